@@ -117,7 +117,7 @@ def hold_burst_case(rng):
     """a burst of 'hold the connection' CTS frames for a session the stack opened, then silence: the session (and its session
     number) is released within the standard's longest timeout after the LAST frame, however many hold frames there were"""
     dll = rng.choice(['j1939-21', 'j1939-22', 'j1939-22'])
-    own, peer_a = rng.sample(range(1, 250), 2)
+    own, peer_a = rng.sample([a for a in range(1, 250) if a != 0x77], 2)      # 0x77 must be an address nobody owns
     sc = net21.Scenario(C.REPO, rng.getrandbits(32), 2, dll=dll, maxcmdt=[rng.choice([1, 3, 255]), 255], addrs=[own, peer_a],
                         latency=lambda r, a, b, f: r.choice([1, 1000]))
     st = sc.stacks[0]
@@ -139,12 +139,21 @@ def hold_burst_case(rng):
         gaps.append(g)
         sc.net.run(g)
     longest = 3_100_000 if dll == 'j1939-22' else 1_300_000
-    sc.net.run(longest - gaps[-1])
+    # the bound counts from the last frame on the bus other than an abort: should the stack itself still transmit for this
+    # session (it may, if a window was open), the clock starts again from there
+    is_abort = (lambda f: len(f[3]) > 0 and (f[3][0] == 255 if dll == 'j1939-21' else f[3][0] & 15 == 15))
+    wait = longest - gaps[-1]
+    for _ in range(6):
+        mark = len(st.sent)
+        sc.net.run(wait)
+        wait = longest
+        if not [f for f in st.sent[mark:] if not is_abort(f)]:
+            break
     bad = []
     if st.dead:
         bad.append(f"background pass died: {type(st.dead).__name__}")
     if not bad and (d._rcv_buffer or d._snd_buffer):
-        bad.append(f"{dll}: session still open {longest / 1e6} s after the last of {n} hold CTS frames: "
+        bad.append(f"{dll}: session still open {longest / 1e6} s after the last frame of a burst of {n} hold CTS frames: "
                    f"snd {[(hex(k), b['state']) for k, b in d._snd_buffer.items()]}")
     if not bad and dll == 'j1939-22' and (not all(d._J1939_22__rts_cts_session_list) or not all(d._J1939_22__bam_session_list)):
         bad.append(f"session numbers lost after a hold burst: {d._J1939_22__rts_cts_session_list}")
